@@ -342,7 +342,7 @@ func runC12(c *ctx, r *Report) error {
 			fixed = append(fixed, semaCase{env, e})
 		}
 	}
-	return semaTie(c, r, nTie, func(rng *rand.Rand, env *semaEnv) {
+	if err := semaTie(c, r, nTie, func(rng *rand.Rand, env *semaEnv) {
 		var cs, sp []string
 		for _, x := range allContexts {
 			if rng.Intn(3) != 0 {
@@ -359,6 +359,22 @@ func runC12(c *ctx, r *Report) error {
 		names := []string{"context-not-allowed", "special-func-not-allowed"}
 		if a, b := semaCodes(cs.Impl, names...), semaCodes(cs.Model, names...); a != b {
 			return "not-allowed-reports-differ-from-table-rule", "the checker's 'not allowed here' reports (" + a + ") differ from the proved rule (" + b + ") for the same availability lists"
+		}
+		return "", ""
+	}); err != nil {
+		return err
+	}
+	// workflow level: the model AL.Visit checks every position with the availability row of the key that belongs to it
+	// (AL.Gen.availabilityCode = the documentation's table, code_eq_docs); a difference in 'not allowed here' reports on
+	// a probe line means the real code used another row there.
+	nV := 300
+	if !c.quick {
+		nV = 6000
+	}
+	return visitTie(c, r, nV, func(cs Case) (string, string) {
+		names := []string{"context-not-allowed", "special-func-not-allowed"}
+		if a, b := visitCodes(cs.Impl, names...), visitCodes(cs.Model, names...); a != b {
+			return "workflow-position-uses-wrong-table-row", "the 'not allowed here' reports at the probes (" + a + ") differ from those of the table row that belongs to each position (" + b + ")"
 		}
 		return "", ""
 	})
